@@ -382,6 +382,8 @@ type Request struct {
 	InitState    map[string]any
 	Globals      map[string]any
 	Ctx          *Ctx
+	// ViaReader: call ParseReader on a reader over Input instead of Parse.
+	ViaReader bool
 }
 
 // ErrRec describes one element of the returned error list.
@@ -414,6 +416,11 @@ type Pkg struct {
 	// capabilities of the flag set the package was generated with
 	HasMemo      bool // Memoize/Debug/Statistics exist
 	HasInitState bool
+	// RunShared makes one option list from the first request (entry, MaxExpr, AllowInvalid,
+	// Memoize; no recorder) and passes that same list to one Parse call per request -
+	// sequentially or, from a barrier, concurrently - as a caller does that keeps its options
+	// in a variable.
+	RunShared func(reqs []*Request, concurrent bool) []*Response
 }
 
 var (
